@@ -173,8 +173,11 @@ PROPS = {
                             "Meddly.Codec.isSingleton_truth", "Meddly.Codec.unpack_pack_full", "Meddly.Codec.unpack_pack_sparse",
                             "Meddly.HashStream.hash_agree"] + LEVELS + HASHGEN,
         "gen": ["Gen.Levels", "Gen.HashStream"],
-        "quick": [fam("canon"), fam("setops"), fam("oplife", _only=STRUCT_KINDS)],
-        "thorough": [fam("canon", "asan"), fam("setops", "asan"), fam("oplife", "asan", _only=STRUCT_KINDS)],
+        # stored nodes must obey the rule in every HISTORY: also after variable reordering (levels then hold variables of
+        # other sizes than their own number suggests) - the structural certificates of C13's workload count here
+        "quick": [fam("canon"), fam("setops"), fam("oplife", _only=STRUCT_KINDS), fam("reorder", _only=STRUCT_KINDS)],
+        "thorough": [fam("canon", "asan"), fam("setops", "asan"), fam("oplife", "asan", _only=STRUCT_KINDS),
+                     fam("reorder", _only=STRUCT_KINDS, cases=3000)],
         "leanchecker": ["MeddlyModel.Core.Dump"],
         "level_text": "The executable certificate checker Dump.check (no duplicate content, children strictly below and live, node-local reduction conditions, per-edge skipping conditions, root conditions) is proved sound: an accepted dump unfolds to trees in reduced form (Dump.check_sound, check_sound_node). It is run on a dump of EVERY active node of the real forest (public node-inspection API, full view) at every quiescent point of generated histories, for every MT forest kind and random storage / memory-manager / deletion policies; reported node count must equal the number of live nodes.",
         "level_note": "The checker's completeness (never rejects a good state) is not proved; it is supported by clean runs at many seeds. Sparse/full view agreement and hashing are checked only through unique-table effects. EV+ forests use the verified EDump.check; EV* forests: structural recount + model evaluation only. Translator tie: the level arithmetic (MDD_levels / MXD_levels / isLevelAbove, forest_levels.h + defines.h) and the hash stream primitives (hash_stream.h) are regenerated into Lean on every run; Props/Levels.lean proves that the model's position numbering (unprimed k = 2k, primed -k = 2k-1) is exactly the library's level order (downLevel = position-1, topLevel = larger position, isLevelAbove = position >) and Props/HashStreamGen.lean that the hand-written hash-stream model equals the generated functions, so hash_agree / push2_eq / hash_of_sequence are statements about the header's current text; the differential family gen validates both translators against the real inline functions.",
@@ -214,8 +217,11 @@ PROPS = {
         # regenerated from arrays.h / arrays.cc and node_headers.h / node_headers.cc on every run; a failed translator is a
         # broken obligation
         "gen": ["Gen.CounterArray", "Gen.NodeHeaders"],
-        "quick": [fam("nodelife"), fam("canon"), fam("oplife"), fam("gen", _only=ONLY_GC)],
-        "thorough": [fam("nodelife", "asan"), fam("canon", "asan"), fam("oplife", "asan"), fam("gen", "asan", _only=ONLY_GC)],
+        # the screened oplife run (SCREENING, DESIGN 8c): 40 000 (thorough 400 000) histories searched by the harness's own
+        # recount / leak / held-function tests, the suspicious ones and every 400th written out for the acceptor
+        "quick": [fam("nodelife"), fam("canon"), fam("oplife"), fam("gen", _only=ONLY_GC), fam("oplife", screen=400, cases=40000)],
+        "thorough": [fam("nodelife", "asan"), fam("canon", "asan"), fam("oplife", "asan"), fam("gen", "asan", _only=ONLY_GC),
+                     fam("oplife", screen=400, cases=400000)],
         "leanchecker": ["MeddlyModel.State.NodeLife", "MeddlyModel.State.CounterArray", "MeddlyModel.Props.CounterArrayGen",
                         "MeddlyModel.Props.NodeHeadersGen"],
         "level_text": "NodeLife state machine (per handle free | active(level, in, cc, children) | deleted(cc); explicit multiset of outside references; pessimistic / optimistic policy) with theorems for EVERY legal op list: counts_exact (incoming count = number of references), no_dangling, held_alive, content_stable (a held node keeps level and children), reuse_only_free, no_reuse_while_cached, all_reclaimed (no references and no cache marks => every handle free; pessimistic: no references => no active handle). CounterArray refines a plain array of naturals through the 8/16/32-bit widening and narrowing. Tie: (D) a real forest driven at the primitive level (createReducedNode / link / unlink / cache / uncache / dd_edge set-copy-clear) with the state of EVERY handle compared with the model after every step, counts pushed across 255 and 65535, handle table grown and shrunk; the real counter_array class driven op by op; (S) in the canon family every dump is recounted (parents + registered roots = reported incoming count), every held edge is re-evaluated against its target after GC churn, and after releasing all edges and clearing caches the forest must report 0 nodes (Recount.no_leak: for a dump accepted by the recount with no user edge left, 'every node has a positive count' is contradictory unless the store is empty - the highest node is referenced by nobody - so the 0-nodes expectation follows from the certificate plus the reclamation rule; Recount.root_counted: a held edge's target has a positive count); family oplife does the same over random HISTORIES of real operations (set algebra, COMPLEMENT, COPY between rules, POST/PRE_IMAGE, integer and EV+ arithmetic, comparisons; edge copies, assignments, releases, cache clears) over up to four forests with random rules and policies on STRUCTURED operands (identity patterns, redundant and fixed variables - the shapes on which operations take early exits and chain builders): exact recount of every forest at random points, every result against the pointwise oracle, every held edge keeps its function, every forest empty at the end.",
